@@ -50,9 +50,10 @@ func (o c14Op) String() string {
 }
 
 type c14Case struct {
-	Store  StoreCfg
-	Naming string
-	Base   string
+	Store    StoreCfg
+	Naming   string
+	Base     string
+	URLSlash bool // the base URL handed to the Go client ends in "/"
 	// features that known defects make fatal are switched on per run, so that
 	// most runs get past them even without an avoid switch
 	Slash      bool // a mailbox name contains "/"
@@ -63,7 +64,7 @@ type c14Case struct {
 }
 
 func (k *c14Case) Describe() []string {
-	l := []string{fmt.Sprintf("store=%s naming=%s basepath=%q slash=%v clientMarkSeen=%v domainCaseVariants=%v", k.Store, k.Naming, k.Base, k.Slash, k.ClientSeen, k.DomainCase)}
+	l := []string{fmt.Sprintf("store=%s naming=%s basepath=%q clientURLslash=%v slash=%v clientMarkSeen=%v domainCaseVariants=%v", k.Store, k.Naming, k.Base, k.URLSlash, k.Slash, k.ClientSeen, k.DomainCase)}
 	for i, b := range k.Boxes {
 		l = append(l, fmt.Sprintf("box%d addr=%q name=%q", i, b.Addr, b.Name))
 	}
@@ -92,6 +93,7 @@ func genC14(w *simrt.Choices, tier string, avoid map[string]bool) Case {
 	k.Store = StoreCfg{Backend: []string{"mem", "file"}[w.Choose(2)]}
 	k.Naming = []string{"local", "full", "domain"}[w.Choose(3)]
 	k.Base = basePaths[w.Choose(len(basePaths))]
+	k.URLSlash = w.Choose(2) == 1
 	k.Slash = w.Choose(8) == 7 && !avoid["slash-in-name"]
 	k.ClientSeen = w.Choose(6) == 5 && !avoid["client-markseen"]
 	k.DomainCase = w.Choose(6) == 5 && !avoid["domain-case"]
@@ -1042,7 +1044,7 @@ func runC14(c *Ctx, cs Case) {
 	ap := &policy.Addressing{Config: root}
 	mgr := &message.StoreManager{AddrPolicy: ap, Store: st, ExtHost: eh}
 	web := startWeb(c, root, mgr, eh)
-	r := &apiRig{c: c, k: k, web: web, cl: web.newClient(), store: st, model: models.NewMailStore(0, 0),
+	r := &apiRig{c: c, k: k, web: web, cl: web.newClient(k.URLSlash), store: st, model: models.NewMailStore(0, 0),
 		removed: map[string][]string{}, absent: absentName(k.Naming)}
 	// a mailbox "can receive mail" when RCPT would accept its address and the
 	// mail is then stored under the name the reference model gives (disputed
